@@ -186,20 +186,55 @@ def _run_variant(args):
         shutil.rmtree(scratch, ignore_errors=True)
 
 
+def _run_seed(args):
+    """A stored seeded change (written by an independent sub-agent) applied to a scratch copy: must be detected."""
+    prop, seed_dir = args
+    name = os.path.basename(seed_dir.rstrip("/"))
+    patch = os.path.join(seed_dir, "patch.diff")
+    scratch = tempfile.mkdtemp(prefix="sa_selftest_")
+    try:
+        tree = os.path.join(scratch, "repo")
+        shutil.copytree(REPO, tree, ignore=shutil.ignore_patterns(".git", "__pycache__", "*.pyc", "build", "*.egg-info"))
+        ap = subprocess.run(["patch", "-p1", "-s", "-f", "-d", tree, "-i", patch], capture_output=True, text=True)
+        if ap.returncode != 0:
+            return name, "skipped", "patch no longer applies"
+        env = dict(os.environ, SASMODELS_REPO=tree, SA_EVIDENCE_DIR=os.path.join(scratch, "ev"), SA_SCRATCH=scratch,
+                   PYTHONDONTWRITEBYTECODE="1", SA_SELFTEST_CHILD="1")
+        proc = subprocess.run([sys.executable, "-m", "sa.main", prop, "--tier", "quick"], cwd=VERIF, env=env,
+                              capture_output=True, text=True, timeout=600)
+        fired = set()
+        rp = os.path.join(scratch, "ev", "replay", "%s.json" % prop)
+        if os.path.exists(rp):
+            with open(rp) as fd:
+                fired = {v["rule"] for v in json.load(fd).get("violations", [])}
+        return name, "ok" if proc.returncode == 1 and fired else "MISS", "exit=%d fired=%s" % (proc.returncode, sorted(fired))
+    finally:
+        shutil.rmtree(scratch, ignore_errors=True)
+
+
 def run(prop):
     """Run the self-test variants of one property; returns (summary dict, list of failure strings)."""
+    import glob
     items = [(i, c) for i, c in enumerate(CORPUS) if c[0] == prop]
+    seeds = [(prop, d) for d in sorted(glob.glob(os.path.join(VERIF, "seeded", prop + "-*")))]
     results = []
-    with ThreadPoolExecutor(max_workers=min(16, max(1, len(items)))) as pool:
+    seed_results = []
+    with ThreadPoolExecutor(max_workers=min(16, max(1, len(items) + len(seeds)))) as pool:
+        fut_seeds = [pool.submit(_run_seed, s) for s in seeds]
         for idx, status, detail in pool.map(_run_variant, items):
             results.append((CORPUS[idx], status, detail))
+        seed_results = [f.result() for f in fut_seeds]
     failures = ["%s %s %s: %s (%s)" % (status, c[1] or "twin", c[3], detail, c[6] or "") for c, status, detail in results
                 if status in ("MISS", "FALSE-ALARM")]
+    failures += ["MISS seeded/%s: %s" % (n, d) for n, st, d in seed_results if st == "MISS"]
     summary = {
         "variants": len(results),
         "break_detected": sum(1 for c, s, d in results if c[2] == B and s == "ok"),
         "twins_silent": sum(1 for c, s, d in results if c[2] == T and s == "ok"),
-        "skipped": [("%s:%s" % (c[3], c[6] or c[1]), d) for c, s, d in results if s == "skipped"],
+        "skipped": [("%s:%s" % (c[3], c[6] or c[1]), d) for c, s, d in results if s == "skipped"] +
+                   [("seeded/" + n, d) for n, st, d in seed_results if st == "skipped"],
+        "seeded_changes_detected": sum(1 for n, st, d in seed_results if st == "ok"),
+        "seeded_changes": [{"seed": n, "status": st, "detail": d} for n, st, d in seed_results],
         "failures": failures,
         "cases": [{"rule": c[1] or "twin", "file": c[3], "note": c[6], "status": s, "detail": d} for c, s, d in results],
     }
